@@ -227,11 +227,18 @@ def run_case(case, ctx, sdir):
             kw = {"on": {}, "off": {"rdf_subclassing": False}, "custom": {"custom_subclasses": dict(CUSTOM)}}[subc]
             sub_map = {} if subc == "off" else dict(defaults, **(CUSTOM if subc == "custom" else {}))
             # ---- shape of the graph (one call on a fresh writer)
+            was_ = os.getcwd()
             try:
+                if case.get("i", 0) % 3 == 2:
+                    # the export runs from another current directory than the one the library was imported in
+                    os.chdir(sdir)
+                    rec.count("config", "export-from-another-current-directory")
                 g = RDFWriter(list(docs), **kw).convert_to_rdf()
             except Exception as exc:
                 rec.violation("export/raised-%s" % type(exc).__name__, repr(exc), dict(case, subclassing=[subc]))
                 continue
+            finally:
+                os.chdir(was_)
             rec.monitor("shape")
             rec.count("config", "shape|" + subc)
             for key, detail in shape_problems(g, models, subc != "off", sub_map):
